@@ -74,6 +74,35 @@ func corpus() []history {
 			}
 		}
 	}
+	// two legs over two different channels whose send sequences coincide (sequences are per channel):
+	// change back over the incoming channel-1, forward over the second pair; every ordering of outcomes
+	for _, fch := range []int{2, 3} {
+		for ci, cs := range seqs[:3] {
+			for fi, fs := range seqs[:3] {
+				for _, il := range interleavings(len(cs), len(fs)) {
+					ops := []op{r0}
+					a, b := 0, 0
+					var tag []string
+					for _, first := range il {
+						if first {
+							ops = append(ops, op{0, 0, cs[a]})
+							tag = append(tag, "c"+cs[a][:1])
+							a++
+						} else {
+							ops = append(ops, op{0, 1, fs[b]})
+							tag = append(tag, "f"+fs[b][:1])
+							b++
+						}
+					}
+					hs = append(hs, history{Name: fmt.Sprintf("corpus:aligned-ch1-ch%d-%d-%d-%s", fch, ci, fi, strings.Join(tag, "")), Wired: true, Align: true,
+						Pkts: []pktSpec{exOut(leg(1, 2), leg(fch, 2))}, Ops: ops, Drain: true})
+				}
+			}
+		}
+	}
+	// the same shape with sequences that differ
+	hs = append(hs, history{Name: "corpus:misaligned-ch1-ch2", Wired: true, Pkts: []pktSpec{exOut(leg(1, 2), leg(2, 2))},
+		Ops: []op{r0, {0, 0, "ok"}, {0, 1, "err"}}, Drain: true})
 	return hs
 }
 
@@ -97,7 +126,7 @@ func interleavings(n, m int) [][]bool {
 }
 
 func genLeg(r *emit.Rand, malformed bool) *legSpec {
-	l := &legSpec{Ch: r.Intn(2), Retries: emit.Pick(r, uint32(0), 1, 2, 2, 3, 3, 4, 256, 257)}
+	l := &legSpec{Ch: r.Intn(4), Retries: emit.Pick(r, uint32(0), 1, 2, 2, 3, 3, 4, 256, 257)}
 	if malformed && r.Chance(1, 3) {
 		l.Bad = emit.Pick(r, "channel", "port", "timeout")
 	}
@@ -161,7 +190,7 @@ func genPkt(r *emit.Rand) pktSpec {
 }
 
 func genHistory(r *emit.Rand, n int) history {
-	h := history{Name: fmt.Sprintf("gen-%d", n), Wired: !r.Chance(1, 8), Drain: !r.Chance(1, 10)}
+	h := history{Name: fmt.Sprintf("gen-%d", n), Wired: !r.Chance(1, 8), Drain: !r.Chance(1, 10), Align: r.Chance(1, 3)}
 	np := 1
 	if r.Chance(1, 3) {
 		np = 2
@@ -195,7 +224,7 @@ func runAll(seed int64, n int, outDir string) error {
 	defer e.h.Close()
 	st := emit.NewStats("C11", seed, "one case = one history on the real application: 1-2 incoming ICS-20 packets with swap memos relayed through "+
 		"MsgRecvPacket, every outgoing leg relayed by the harness (far end receive, MsgAcknowledgement / MsgTimeout) in a chosen order; "+
-		"non-trivial when an incoming packet was accepted with >= 1 outgoing leg; distinct by (memo shape, sequence of leg outcomes as delivered)")
+		"non-trivial when an incoming packet was accepted with >= 1 outgoing leg; distinct by (memo shape, legs on one channel / two channels with equal / different sequences, sequence of leg outcomes as delivered)")
 	cf := &emit.CasesFile{Import: "Swap.C11Check", Runner: "run", Type: "hist"}
 	st.Extra["ibc_keeper_fn_wired_by_app"] = e.nativeFn != nil
 	st.Extra["model_cfg"] = cfgTerm(true)
@@ -237,13 +266,27 @@ func runAll(seed int64, n int, outDir string) error {
 					}
 				}
 				st.Count(fmt.Sprintf("packet:swap-accepted-%d-legs", nl))
+				if c, f := p.Legs[0], p.Legs[1]; c != nil && f != nil && c.First[0] != f.First[0] {
+					if c.First[1] == f.First[1] {
+						st.Count("legs:two-channels-same-sequence")
+					} else {
+						st.Count("legs:two-channels-different-sequences")
+					}
+				}
 				if nl > 0 {
 					kind := "in"
 					if p.Spec.ExactOut {
 						kind = "out"
 					}
 					// distinct by memo shape and by the ordering of outcomes as delivered to this packet's legs
-					st.Nontriv(fmt.Sprintf("%s/%s/%d/%s", kind, strings.Join(shape, "+"), len(rn.pk), legOrder(rn, p)))
+					chans := "1ch"
+					if c, f := p.Legs[0], p.Legs[1]; c != nil && f != nil && c.First[0] != f.First[0] {
+						chans = "2ch-seq-differ"
+						if c.First[1] == f.First[1] {
+							chans = "2ch-seq-equal"
+						}
+					}
+					st.Nontriv(fmt.Sprintf("%s/%s/%s/%d/%s", kind, strings.Join(shape, "+"), chans, len(rn.pk), legOrder(rn, p)))
 				}
 			}
 		}
